@@ -50,6 +50,8 @@ def run(an: Analysis, rep):
     rep.rule("R14.3", "nested code constants are decoded by CodeData.from_code; reference walk recurses over co_consts", 2)
     from rules.common import purity
     rep.run(purity, an, rep, "R14.P", ["iter", "all_code_data", "from_code"])
+    from rules.common import ordering_rule
+    rep.run(ordering_rule, an, rep, "R14.5", ["iter", "all_code_data"])
     tg = an.tg
     ci = an.prog.cls(ROOT)
     it, ret = an.interp("iter")
@@ -121,6 +123,34 @@ def run(an: Analysis, rep):
         while id(st) in pm and not isinstance(st, ast.stmt):
             st = pm[id(st)]
         gs = _g2(fn.module, fn, st)
+        # "once per instruction" can only be claimed when the yield sits in loops that walk self's own tuples directly
+        cur = st
+        direct = True
+        targets = {fn.params[0]}
+        loops = []
+        while id(cur) in pm and pm[id(cur)] is not fn.node:
+            cur = pm[id(cur)]
+            if isinstance(cur, (ast.For, ast.While)):
+                loops.append(cur)
+        for lp in reversed(loops):
+            if not isinstance(lp, ast.For):
+                direct = False
+                break
+            itx = lp.iter
+            while isinstance(itx, ast.Call) and isinstance(itx.func, ast.Name) and itx.func.id in ("enumerate", "reversed", "iter", "tuple", "list") and itx.args:
+                itx = itx.args[0]
+            base = itx
+            while isinstance(base, ast.Attribute):
+                base = base.value
+            if not (isinstance(base, ast.Name) and base.id in targets) or any(isinstance(x, ast.Call) for x in ast.walk(itx)):
+                if not (isinstance(itx, ast.Call) and isinstance(itx.func, (ast.Name, ast.Attribute)) and
+                        ((isinstance(itx.func, ast.Attribute) and itx.func.attr == "fromkeys") or (isinstance(itx.func, ast.Name) and itx.func.id in ("set", "frozenset")))):
+                    direct = False
+                    break
+            targets |= {x.id for x in ast.walk(lp.target) if isinstance(x, ast.Name)}
+        if not direct:
+            raise AnalysisError(f"{fn.qual}: the nested code objects reach `{norm_src(st)}` through `{norm_src(lp.iter)[:60]}`, not by walking self's blocks directly: "
+                                f"how often each one is yielded (and whether any is dropped on the way) is not decided")
         dedup = any(isinstance(c, ast.Compare) and isinstance(c.ops[0], ast.NotIn) for g, pos in gs for c in ast.walk(g)) and \
             any(isinstance(c, ast.Call) and isinstance(c.func, ast.Attribute) and c.func.attr == "add" for c in ast.walk(fn.node))
         uniq_iter = any(isinstance(n, ast.For) and isinstance(n.iter, ast.Call) and ((isinstance(n.iter.func, ast.Attribute) and n.iter.func.attr == "fromkeys") or
